@@ -60,11 +60,16 @@ def _kill_process_tree_without_psutil(process):
             _posix_recursive_kill(process.pid)
     except Exception:  # pragma: no cover
         details = traceback.format_exc()
-        warnings.warn(
-            "Failed to kill subprocesses on this platform. Please install"
-            "psutil: https://github.com/giampaolo/psutil\n"
-            f"Details:\n{details}"
-        )
+        try:
+            warnings.warn(
+                "Failed to kill subprocesses on this platform. Please install"
+                "psutil: https://github.com/giampaolo/psutil\n"
+                f"Details:\n{details}"
+            )
+        except Exception:
+            # Warnings can be turned into errors (-W error): still fall back
+            # to killing the main process below.
+            pass
         # In case we cannot introspect or kill the descendants, we fall back to
         # only killing the main process.
         #
